@@ -52,11 +52,13 @@ theorem State.ext' {s s2 : State σ} (h : CoreEq s s2) (h1 : s2.fdtReceivers = s
 
 theorem removeObject_core (I : ObjIface σ) {s s2 : State σ} (t : Nat) (h : CoreEq s s2) :
     CoreEq (removeObject I s t).1 (removeObject I s2 t).1 ∧ (removeObject I s2 t).2 = (removeObject I s t).2 := by
-  unfold removeObject
-  rw [h.objects]
-  cases alookup t s.objects with
-  | none => exact ⟨h, rfl⟩
-  | some o => exact ⟨⟨h.cfg, by simp only []; rw [h.objects], h.completed, h.errors, h.ci⟩, rfl⟩
+  obtain ⟨a1, a2, a3, a4, a5, a6, a7⟩ := s
+  obtain ⟨b1, b2, b3, b4, b5, b6, b7⟩ := s2
+  obtain ⟨c1, c2, c3, c4, c5⟩ := h
+  simp only [] at c1 c2 c3 c4 c5
+  subst c1 c2 c3 c4 c5
+  simp only [removeObject]
+  cases alookup t b2 <;> exact ⟨⟨rfl, rfl, rfl, rfl, rfl⟩, rfl⟩
 
 theorem gcObjectError_core (I : ObjIface σ) (fuel : Nat) {s s2 : State σ} (h : CoreEq s s2) :
     CoreEq (gcObjectError I fuel s).1 (gcObjectError I fuel s2).1 ∧
@@ -64,52 +66,55 @@ theorem gcObjectError_core (I : ObjIface σ) (fuel : Nat) {s s2 : State σ} (h :
   induction fuel generalizing s s2 with
   | zero => exact ⟨h, rfl⟩
   | succ n ih =>
-    unfold gcObjectError
-    rw [h.errors, h.cfg]
-    by_cases hlen : s.errors.length > s.cfg.maxObjectsError
-    · rw [if_pos hlen, if_pos hlen]
-      cases s.errors with
-      | nil => exact ⟨h, rfl⟩
-      | cons toi rest =>
-        simp only []
-        have h1 := removeObject_core I (s := { s with errors := rest }) (s2 := { s2 with errors := rest }) toi
-          ⟨h.cfg, h.objects, h.completed, rfl, h.ci⟩
+    obtain ⟨a1, a2, a3, a4, a5, a6, a7⟩ := s
+    obtain ⟨b1, b2, b3, b4, b5, b6, b7⟩ := s2
+    obtain ⟨c1, c2, c3, c4, c5⟩ := h
+    simp only [] at c1 c2 c3 c4 c5
+    subst c1 c2 c3 c4 c5
+    cases b4 with
+    | nil =>
+      simp only [gcObjectError]
+      split <;> exact ⟨⟨rfl, rfl, rfl, rfl, rfl⟩, rfl⟩
+    | cons toi rest =>
+      simp only [gcObjectError]
+      split
+      · have h1 := removeObject_core I (s := ⟨b1, b2, b3, rest, a5, a6, b7⟩) (s2 := ⟨b1, b2, b3, rest, b5, b6, b7⟩) toi
+          ⟨rfl, rfl, rfl, rfl, rfl⟩
         have h2 := ih h1.1
         exact ⟨h2.1, by rw [h1.2, h2.2]⟩
-    · rw [if_neg hlen, if_neg hlen]; exact ⟨h, rfl⟩
+      · exact ⟨⟨rfl, rfl, rfl, rfl, rfl⟩, rfl⟩
 
 theorem checkObjectState_core (I : ObjIface σ) {s s2 : State σ} (t : Nat) (h : CoreEq s s2) :
     CoreEq (checkObjectState I s t).1 (checkObjectState I s2 t).1 ∧
       (checkObjectState I s2 t).2 = (checkObjectState I s t).2 := by
-  unfold checkObjectState
-  rw [h.objects]
-  cases alookup t s.objects with
-  | none => exact ⟨h, rfl⟩
+  obtain ⟨a1, a2, a3, a4, a5, a6, a7⟩ := s
+  obtain ⟨b1, b2, b3, b4, b5, b6, b7⟩ := s2
+  obtain ⟨c1, c2, c3, c4, c5⟩ := h
+  simp only [] at c1 c2 c3 c4 c5
+  subst c1 c2 c3 c4 c5
+  simp only [checkObjectState]
+  cases alookup t b2 with
+  | none => exact ⟨⟨rfl, rfl, rfl, rfl, rfl⟩, rfl⟩
   | some o =>
     simp only []
     cases I.state o with
-    | receiving => exact ⟨h, rfl⟩
+    | receiving => exact ⟨⟨rfl, rfl, rfl, rfl, rfl⟩, rfl⟩
     | completed =>
       simp only []
       apply removeObject_core
-      by_cases hcc : I.cacheControl o ≠ some CacheControl.noCache
-      · rw [if_pos hcc, if_pos hcc]
-        exact ⟨h.cfg, h.objects, by simp only []; rw [h.completed], h.errors, h.ci⟩
-      · rw [if_neg hcc, if_neg hcc]; exact h
+      split <;> exact ⟨rfl, rfl, rfl, rfl, rfl⟩
     | interrupted =>
       simp only []
-      rw [h.errors]
-      have h2 := gcObjectError_core I (sinsert t s.errors).length
-        (s := { s with errors := sinsert t s.errors }) (s2 := { s2 with errors := sinsert t s.errors })
-        ⟨h.cfg, h.objects, h.completed, rfl, h.ci⟩
+      have h2 := gcObjectError_core I (sinsert t b4).length
+        (s := ⟨b1, b2, b3, sinsert t b4, a5, a6, b7⟩) (s2 := ⟨b1, b2, b3, sinsert t b4, b5, b6, b7⟩)
+        ⟨rfl, rfl, rfl, rfl, rfl⟩
       have h3 := removeObject_core I t h2.1
       exact ⟨h3.1, by rw [h2.2, h3.2]⟩
     | error =>
       simp only []
-      rw [h.errors]
-      have h2 := gcObjectError_core I (sinsert t s.errors).length
-        (s := { s with errors := sinsert t s.errors }) (s2 := { s2 with errors := sinsert t s.errors })
-        ⟨h.cfg, h.objects, h.completed, rfl, h.ci⟩
+      have h2 := gcObjectError_core I (sinsert t b4).length
+        (s := ⟨b1, b2, b3, sinsert t b4, a5, a6, b7⟩) (s2 := ⟨b1, b2, b3, sinsert t b4, b5, b6, b7⟩)
+        ⟨rfl, rfl, rfl, rfl, rfl⟩
       have h3 := removeObject_core I t h2.1
       exact ⟨h3.1, by rw [h2.2, h3.2]⟩
 
@@ -130,18 +135,24 @@ theorem removeObjects_core (I : ObjIface σ) (l : List Nat) {s s2 : State σ} (h
   induction l generalizing s s2 with
   | nil => exact ⟨h, rfl⟩
   | cons t ts ih =>
+    obtain ⟨a1, a2, a3, a4, a5, a6, a7⟩ := s
+    obtain ⟨b1, b2, b3, b4, b5, b6, b7⟩ := s2
+    obtain ⟨c1, c2, c3, c4, c5⟩ := h
+    simp only [] at c1 c2 c3 c4 c5
+    subst c1 c2 c3 c4 c5
     simp only [removeObjects]
-    have h1 := removeObject_core I (s := { s with errors := s.errors.filter (· ≠ t) })
-      (s2 := { s2 with errors := s2.errors.filter (· ≠ t) }) t
-      ⟨h.cfg, h.objects, h.completed, by simp only []; rw [h.errors], h.ci⟩
+    have h1 := removeObject_core I (s := ⟨b1, b2, b3, b4.filter (· ≠ t), a5, a6, b7⟩)
+      (s2 := ⟨b1, b2, b3, b4.filter (· ≠ t), b5, b6, b7⟩) t ⟨rfl, rfl, rfl, rfl, rfl⟩
     have h2 := ih h1.1
     exact ⟨h2.1, by rw [h1.2, h2.2]⟩
 
 theorem cleanupObjects_core (I : ObjIface σ) (stale : Nat → Bool) {s s2 : State σ} (h : CoreEq s s2) :
     CoreEq (cleanupObjects I s stale).1 (cleanupObjects I s2 stale).1 ∧
       (cleanupObjects I s2 stale).2 = (cleanupObjects I s stale).2 := by
+  have hc := h.cfg
+  have ho := h.objects
   unfold cleanupObjects
-  rw [h.cfg, h.objects]
+  rw [hc, ho]
   by_cases ht : ¬ s.cfg.objectTimeout = true
   · rw [if_pos ht, if_pos ht]; exact ⟨h, rfl⟩
   · rw [if_neg ht, if_neg ht]; exact removeObjects_core I _ h
@@ -164,5 +175,436 @@ theorem shift_of_frame (δ : Int) (s : State σ) (F : State σ → State σ × L
     · rw [h1.2]; simp only [shiftS]; rw [h0.2]
     · rw [h1.1]; simp only [shiftS]; rw [h0.1]
   · exact h.2
+
+
+/-! ### functions that read `fdt_current` -/
+
+theorem attachLatest_shift (δ : Int) (I : ObjIface σ) (s : State σ) :
+    attachLatest I (shiftS δ s) = (shiftS δ (attachLatest I s).1, (attachLatest I s).2) := by
+  cases hcur : s.fdtCurrent with
+  | nil =>
+    have h1 : (shiftS δ s).fdtCurrent = [] := by simp [shiftS, hcur]
+    simp only [attachLatest, hcur, h1]
+  | cons f r =>
+    have h1 : (shiftS δ s).fdtCurrent = shiftF δ f :: r.map (shiftF δ) := by simp [shiftS, hcur]
+    cases hinst : f.inst with
+    | none =>
+      have h2 : (shiftF δ f).inst = none := by rw [shiftF_inst, hinst]
+      simp only [attachLatest, hcur, h1, hinst, h2]
+    | some inst =>
+      have h2 : (shiftF δ f).inst = some inst := by rw [shiftF_inst, hinst]
+      simp only [attachLatest, hcur, h1, hinst, h2, shiftF_fdtId]
+      have key := shift_of_frame δ { s with objects := (attachAll I f.fdtId inst s.objects).1, fdtCurrent := f :: r }
+        (fun st => checkObjectStates I st (attachAll I f.fdtId inst s.objects).2.1)
+        (fun a b h => checkObjectStates_core I _ h)
+        (fun a => ⟨(checkObjectStates_fdt I a _).1, (checkObjectStates_fdt I a _).2.1⟩)
+      show ((checkObjectStates I (shiftS δ { s with objects := (attachAll I f.fdtId inst s.objects).1, fdtCurrent := f :: r })
+              (attachAll I f.fdtId inst s.objects).2.1).1,
+            (attachAll I f.fdtId inst s.objects).2.2 ++
+              (checkObjectStates I (shiftS δ { s with objects := (attachAll I f.fdtId inst s.objects).1, fdtCurrent := f :: r })
+                (attachAll I f.fdtId inst s.objects).2.1).2) = _
+      rw [key]
+
+theorem gcObjectCompleted_shift (δ : Int) (s : State σ) :
+    gcObjectCompleted (shiftS δ s) = shiftS δ (gcObjectCompleted s) := by
+  cases hcur : s.fdtCurrent with
+  | nil =>
+    have h1 : (shiftS δ s).fdtCurrent = [] := by simp [shiftS, hcur]
+    simp only [gcObjectCompleted, hcur, h1]
+  | cons f r =>
+    have h1 : (shiftS δ s).fdtCurrent = shiftF δ f :: r.map (shiftF δ) := by simp [shiftS, hcur]
+    cases hinst : f.inst with
+    | none =>
+      have h2 : (shiftF δ f).inst = none := by rw [shiftF_inst, hinst]
+      simp only [gcObjectCompleted, hcur, h1, hinst, h2]
+    | some inst =>
+      have h2 : (shiftF δ f).inst = some inst := by rw [shiftF_inst, hinst]
+      simp only [gcObjectCompleted, hcur, h1, hinst, h2]
+      cases inst.files <;> rfl
+
+theorem updateCompletedCc_shift (δ : Int) (s : State σ) :
+    updateCompletedCc (shiftS δ s) = (shiftS δ (updateCompletedCc s).1, (updateCompletedCc s).2) := by
+  cases hcur : s.fdtCurrent with
+  | nil =>
+    have h1 : (shiftS δ s).fdtCurrent = [] := by simp [shiftS, hcur]
+    simp only [updateCompletedCc, hcur, h1]
+  | cons f r =>
+    have h1 : (shiftS δ s).fdtCurrent = shiftF δ f :: r.map (shiftF δ) := by simp [shiftS, hcur]
+    cases hinst : f.inst with
+    | none =>
+      have h2 : (shiftF δ f).inst = none := by rw [shiftF_inst, hinst]
+      simp only [updateCompletedCc, hcur, h1, hinst, h2]
+    | some inst =>
+      have h2 : (shiftF δ f).inst = some inst := by rw [shiftF_inst, hinst]
+      simp only [updateCompletedCc, hcur, h1, hinst, h2]
+      cases inst.files <;> rfl
+
+/-- result of a call with the state shifted -/
+def mapRes (δ : Int) : Rs (State σ × Res × List Ev) → Rs (State σ × Res × List Ev)
+  | .ok (s, r, e) => .ok (shiftS δ s, r, e)
+  | .error w => .error w
+
+theorem createScan_shift (δ : Int) (I : ObjIface σ) (toi : Nat) (now : Int) (hn : TimeSane now)
+    (hn' : TimeSane (now + δ)) :
+    ∀ (l : List (FdtRecv σ)) (o : σ), (∀ f ∈ l, SkewOK δ f) →
+      createScan I toi (now + δ) o (l.map (shiftF δ)) =
+        (match createScan I toi now o l with
+         | .ok (o', l', ev) => .ok (o', l'.map (shiftF δ), ev)
+         | .error w => .error w) := by
+  intro l
+  induction l with
+  | nil => intro o _; rfl
+  | cons f r ih =>
+    intro o hall
+    have hf := hall f (by simp)
+    have hr : ∀ g ∈ r, SkewOK δ g := fun g hg => hall g (List.mem_cons_of_mem _ hg)
+    simp only [List.map_cons]
+    unfold createScan
+    rw [updateExpired_shiftF δ f now hn hn' hf]
+    cases f.updateExpired now with
+    | error w => rfl
+    | ok f' =>
+      simp only [shiftF_st, shiftF_inst, shiftF_fdtId]
+      cases hatt : (if f'.st = FdtState.complete then
+          match f'.inst with
+          | some inst => some (I.attachFdt o f'.fdtId inst)
+          | none => none
+        else none) with
+      | none =>
+        simp only []
+        rw [ih o hr]
+        cases createScan I toi now o r with
+        | error w => rfl
+        | ok x => obtain ⟨o2, r2, e2⟩ := x; rfl
+      | some x =>
+        obtain ⟨o1, b, evs1⟩ := x
+        cases b with
+        | true => simp only [List.map_cons]
+        | false =>
+          simp only []
+          rw [ih o1 hr]
+          cases createScan I toi now o1 r with
+          | error w => rfl
+          | ok x => obtain ⟨o2, r2, e2⟩ := x; rfl
+
+
+theorem createObj_shift (δ : Int) (I : ObjIface σ) (s : State σ) (toi : Nat) (now : Int)
+    (hn : TimeSane now) (hn' : TimeSane (now + δ)) (hall : ∀ f ∈ s.fdtCurrent, SkewOK δ f) :
+    createObj I (shiftS δ s) toi (now + δ) =
+      (match createObj I s toi now with
+       | .ok (s', ev) => .ok (shiftS δ s', ev)
+       | .error w => .error w) := by
+  unfold createObj
+  have h1 : (shiftS δ s).fdtCurrent = s.fdtCurrent.map (shiftF δ) := rfl
+  have h2 : (shiftS δ s).cfg = s.cfg := rfl
+  rw [h1, h2, createScan_shift δ I toi now hn hn' s.fdtCurrent _ hall]
+  cases createScan I toi now (I.new toi s.cfg.maxCache) s.fdtCurrent with
+  | error w => rfl
+  | ok x => obtain ⟨o, cur, evs⟩ := x; rfl
+
+theorem pushObjCore_shift (δ : Int) (I : ObjIface σ) (s : State σ) (p : Pkt) (now : Int)
+    (hn : TimeSane now) (hn' : TimeSane (now + δ)) (hall : ∀ f ∈ s.fdtCurrent, SkewOK δ f) :
+    pushObjCore I (shiftS δ s) p (now + δ) = mapRes δ (pushObjCore I s p now) := by
+  unfold pushObjCore
+  simp only []
+  have h1 : (shiftS δ s).objects = s.objects := rfl
+  rw [h1]
+  have hcreated : (if (alookup p.toi s.objects).isNone = true then createObj I (shiftS δ s) p.toi (now + δ)
+        else Except.ok (shiftS δ s, [])) =
+      (match (if (alookup p.toi s.objects).isNone = true then createObj I s p.toi now else Except.ok (s, [])) with
+       | .ok (s', ev) => .ok (shiftS δ s', ev)
+       | .error w => .error w) := by
+    split
+    · exact createObj_shift δ I s p.toi now hn hn' hall
+    · rfl
+  rw [hcreated]
+  cases (if (alookup p.toi s.objects).isNone = true then createObj I s p.toi now else Except.ok (s, [])) with
+  | error w => rfl
+  | ok x =>
+    obtain ⟨s1, e0⟩ := x
+    simp only []
+    have h2 : (shiftS δ s1).objects = s1.objects := rfl
+    rw [h2]
+    cases alookup p.toi s1.objects with
+    | none => rfl
+    | some o =>
+      simp only []
+      have key := shift_of_frame δ { s1 with objects := ainsert p.toi (I.push o p).1 s1.objects }
+        (fun st => checkObjectState I st p.toi)
+        (fun a b h => checkObjectState_core I _ h)
+        (fun a => ⟨(checkObjectState_fdt I a _).1, (checkObjectState_fdt I a _).2.1⟩)
+      show (Except.ok ((checkObjectState I (shiftS δ { s1 with objects := ainsert p.toi (I.push o p).1 s1.objects }) p.toi).1, Res.ok,
+          e0 ++ wevs p.toi (I.push o p).2 ++
+            (checkObjectState I (shiftS δ { s1 with objects := ainsert p.toi (I.push o p).1 s1.objects }) p.toi).2) : Rs _) = _
+      rw [key]
+      rfl
+
+theorem gateCompleted_shift (δ : Int) (s : State σ) (p : Pkt) :
+    gateCompleted (shiftS δ s) p =
+      (match gateCompleted s p with | .inl s1 => .inl (shiftS δ s1) | .inr r => .inr r) := by
+  unfold gateCompleted
+  have h1 : (shiftS δ s).completed = s.completed := rfl
+  have h2 : (shiftS δ s).cfg = s.cfg := rfl
+  rw [h1, h2]
+  split
+  · split
+    · rfl
+    · cases p.pid with
+      | none => rfl
+      | some x =>
+        obtain ⟨sbn, esi⟩ := x
+        simp only []
+        split <;> rfl
+  · rfl
+
+theorem gateError_shift (δ : Int) (s : State σ) (p : Pkt) :
+    gateError (shiftS δ s) p =
+      (match gateError s p with | .inl s1 => .inl (shiftS δ s1) | .inr r => .inr r) := by
+  unfold gateError
+  have h1 : (shiftS δ s).errors = s.errors := rfl
+  rw [h1]
+  split
+  · cases p.pid with
+    | none => rfl
+    | some x =>
+      obtain ⟨sbn, esi⟩ := x
+      simp only []
+      split <;> rfl
+  · rfl
+
+theorem pushObj_shift (δ : Int) (I : ObjIface σ) (s : State σ) (p : Pkt) (now : Int)
+    (hn : TimeSane now) (hn' : TimeSane (now + δ)) (hall : ∀ f ∈ s.fdtCurrent, SkewOK δ f) :
+    pushObj I (shiftS δ s) p (now + δ) = mapRes δ (pushObj I s p now) := by
+  unfold pushObj
+  rw [gateCompleted_shift]
+  cases hg1 : gateCompleted s p with
+  | inr r => rfl
+  | inl s1 =>
+    simp only []
+    rw [gateError_shift]
+    cases hg2 : gateError s1 p with
+    | inr r => rfl
+    | inl s2 =>
+      simp only []
+      have hc : s2.fdtCurrent = s.fdtCurrent := by
+        rw [(gateError_fdt hg2).1, (gateCompleted_fdt hg1).1]
+      exact pushObjCore_shift δ I s2 p now hn hn' (by rw [hc]; exact hall)
+
+theorem chronoConv_sane (t : Int) (h : -4611686018427387904 ≤ t ∧ t < 4611686018427387904 + 4294967296000000) :
+    chronoConv t = .ok () := by
+  unfold chronoConv chronoLimit
+  rw [if_pos (by omega)]
+
+theorem shiftF_new (δ : Int) (I : ObjIface σ) (id : Nat) (chk : Bool) :
+    shiftF δ (FdtRecv.new I id chk) = FdtRecv.new I id chk := rfl
+
+theorem fdtEntry_shift (δ : Int) (I : ObjIface σ) (s : State σ) (id : Nat) :
+    fdtEntry I (shiftS δ s) id = (shiftS δ (fdtEntry I s id).1, shiftF δ (fdtEntry I s id).2) := by
+  unfold fdtEntry
+  have h1 : (shiftS δ s).fdtReceivers = s.fdtReceivers.map (fun kf => (kf.1, shiftF δ kf.2)) := rfl
+  have h2 : (shiftS δ s).cfg = s.cfg := rfl
+  rw [h1, h2, alookup_map]
+  cases alookup id s.fdtReceivers with
+  | some f => rfl
+  | none =>
+    simp only [Option.map_none]
+    rw [← shiftF_new δ I id s.cfg.expCheck, ainsert_map]
+    rfl
+
+
+theorem map_dropLast' {α β} (g : α → β) (l : List α) : (l.map g).dropLast = l.dropLast.map g := by
+  induction l with
+  | nil => rfl
+  | cons a r ih =>
+    cases r with
+    | nil => rfl
+    | cons b t => simp only [List.map_cons, List.dropLast_cons_cons] at ih ⊢; rw [ih]
+
+theorem prevIdCheck_shift (δ : Int) (l : List (FdtRecv σ)) :
+    prevIdCheck (l.map (shiftF δ)) = prevIdCheck l := by
+  cases l with
+  | nil => rfl
+  | cons a r => simp only [List.map_cons, prevIdCheck, shiftF_fdtId]
+
+theorem fdtCb_shift (δ : Int) (f : FdtRecv σ) (id : Nat) : fdtCb (shiftF δ f) id = fdtCb f id := by
+  unfold fdtCb
+  rw [shiftF_utf8, shiftF_hasMeta]
+
+theorem fdtCompleted_shift (δ : Int) (I : ObjIface σ) (s : State σ) (id : Nat) :
+    fdtCompleted I (shiftS δ s) id = mapRes δ (fdtCompleted I s id) := by
+  unfold fdtCompleted
+  have h1 : (shiftS δ s).fdtCurrent = s.fdtCurrent.map (shiftF δ) := rfl
+  have h2 : (shiftS δ s).fdtReceivers = s.fdtReceivers.map (fun kf => (kf.1, shiftF δ kf.2)) := rfl
+  rw [h1, prevIdCheck_shift]
+  cases prevIdCheck s.fdtCurrent with
+  | error w => rfl
+  | ok _ =>
+    simp only []
+    rw [h2, alookup_map]
+    cases alookup id s.fdtReceivers with
+    | none => rfl
+    | some f =>
+      simp only [Option.map_some]
+      rw [fdtCb_shift]
+      cases fdtCb f id with
+      | error w => rfl
+      | ok e0 =>
+        simp only []
+        have hs0 : ({ shiftS δ s with
+              fdtReceivers := aerase id (s.fdtReceivers.map (fun kf => (kf.1, shiftF δ kf.2))),
+              fdtCurrent := shiftF δ f :: s.fdtCurrent.map (shiftF δ) } : State σ) =
+            shiftS δ { s with fdtReceivers := aerase id s.fdtReceivers, fdtCurrent := f :: s.fdtCurrent } := by
+          simp only [shiftS, aerase_map, List.map_cons]
+        rw [hs0, attachLatest_shift]
+        simp only []
+        rw [gcObjectCompleted_shift, updateCompletedCc_shift]
+        simp only []
+        have hlen : (shiftS δ (updateCompletedCc (gcObjectCompleted (attachLatest I
+              { s with fdtReceivers := aerase id s.fdtReceivers, fdtCurrent := f :: s.fdtCurrent }).1)).1).fdtCurrent.length =
+            (updateCompletedCc (gcObjectCompleted (attachLatest I
+              { s with fdtReceivers := aerase id s.fdtReceivers, fdtCurrent := f :: s.fdtCurrent }).1)).1.fdtCurrent.length := by
+          simp [shiftS]
+        rw [hlen]
+        split
+        · simp only [mapRes, shiftS, map_dropLast']
+        · rfl
+
+theorem fdtDispatch_shift (δ : Int) (I : ObjIface σ) (s : State σ) (id : Nat) (f : FdtRecv σ)
+    (now : Int) (hn : TimeSane now) (hn' : TimeSane (now + δ)) (hok : SkewOK δ f) :
+    fdtDispatch I (shiftS δ s) id (shiftF δ f) (now + δ) = mapRes δ (fdtDispatch I s id f now) := by
+  unfold fdtDispatch
+  rw [shiftF_st]
+  cases hst : f.st with
+  | receiving => rfl
+  | error => rfl
+  | complete => exact fdtCompleted_shift δ I s id
+  | expired =>
+    simp only []
+    rcases hok with hok | ⟨_, hrecv⟩
+    · rw [serverTime_shiftF δ f now hn hn' hok, shiftF_expires]
+      obtain ⟨so, hso, h1, h2, h3, h4⟩ := hok
+      rw [serverTime_of_signed f now so hso h1 h2 hn]
+      simp only []
+      have e1 : chronoConv (f.expires.getD (now + δ)) = chronoConv (f.expires.getD now) := by
+        cases hexp : f.expires with
+        | some e => rfl
+        | none =>
+          simp only [Option.getD_none]
+          unfold TimeSane at hn hn'
+          rw [chronoConv_sane _ (by omega), chronoConv_sane _ (by omega)]
+      rw [e1]
+      cases chronoConv (f.expires.getD now) with
+      | error w => rfl
+      | ok _ =>
+        simp only []
+        cases chronoConv (now - so) with
+        | error w => rfl
+        | ok _ => rfl
+    · rw [hrecv] at hst; cases hst
+
+/-- packets of FDT instances carry a sane sender-current-time -/
+def SctOK (p : Pkt) : Prop :=
+  p.toi = 0 → ∀ id, p.fdtId = some id → ∃ res, p.sct = some res ∧ 0 ≤ res ∧ res < 4294967296000000
+
+theorem signedOffset_congr (f g : FdtRecv σ) (ho : g.offset = f.offset) (hl : g.late = f.late) :
+    g.signedOffset = f.signedOffset := by
+  unfold FdtRecv.signedOffset
+  rw [ho, hl]
+
+theorem signedOffset_observe (f : FdtRecv σ) (res now : Int) :
+    (f.observeSct (some res) now).signedOffset = some (now - res) := by
+  unfold FdtRecv.observeSct
+  simp only []
+  by_cases h : res < now
+  · rw [if_pos h]
+    simp only [FdtRecv.signedOffset, ↓reduceIte, Option.some.injEq]
+    omega
+  · rw [if_neg h]
+    simp only [FdtRecv.signedOffset, Bool.false_eq_true, ↓reduceIte, Option.some.injEq]
+    omega
+
+theorem skewOK_push (δ : Int) (I : ObjIface σ) (f : FdtRecv σ) (p : Pkt) (now : Int) (ans : FdtAns)
+    (res : Int) (hs : p.sct = some res) (hr : 0 ≤ res ∧ res < 4294967296000000)
+    (hn : TimeSane now) (hn' : TimeSane (now + δ)) : SkewOK δ (f.push I p now ans) := by
+  left
+  have hp := push_fields I f p now ans
+  refine ⟨now - res, ?_, ?_⟩
+  · rw [signedOffset_congr _ _ hp.1 hp.2.1, hs, signedOffset_observe]
+  · unfold TimeSane at hn hn'
+    unfold offB
+    omega
+
+theorem skewOK_updateExpired (δ : Int) (f f' : FdtRecv σ) (now : Int) (h : SkewOK δ f)
+    (hu : f.updateExpired now = .ok f') : SkewOK δ f' := by
+  have hf := updateExpired_fields hu
+  rcases h with ⟨so, hso, hb⟩ | ⟨hnone, hrecv⟩
+  · left
+    refine ⟨so, ?_, hb⟩
+    unfold FdtRecv.signedOffset at hso ⊢
+    rw [hf.2.2.2.2.1, hf.2.2.2.2.2.1]; exact hso
+  · right
+    have : ¬ (f.st = .complete ∧ f.check = true) := by rw [hrecv]; simp
+    rw [updateExpired_neg f now this] at hu
+    injection hu with hu; subst hu
+    exact ⟨hnone, hrecv⟩
+
+theorem pushFdtObj_shift (δ : Int) (I : ObjIface σ) (s : State σ) (p : Pkt) (now : Int) (ans : FdtAns)
+    (hn : TimeSane now) (hn' : TimeSane (now + δ))
+    (hsct : ∀ id, p.fdtId = some id → ∃ res, p.sct = some res ∧ 0 ≤ res ∧ res < 4294967296000000) :
+    pushFdtObj I (shiftS δ s) p (now + δ) ans = mapRes δ (pushFdtObj I s p now ans) := by
+  unfold pushFdtObj
+  cases hid : p.fdtId with
+  | none =>
+    simp only []
+    split
+    · rfl
+    · split <;> rfl
+  | some id =>
+    simp only []
+    obtain ⟨res, hs, hr⟩ := hsct id hid
+    have hany : (shiftS δ s).fdtCurrent.any (fun f => decide (f.fdtId = id)) =
+        s.fdtCurrent.any (fun f => decide (f.fdtId = id)) := by
+      simp only [shiftS, List.any_map]
+      congr 1
+      funext f
+      simp only [Function.comp, shiftF_fdtId]
+    have hcfg : (shiftS δ s).cfg = s.cfg := rfl
+    rw [hany, hcfg]
+    split
+    · rfl
+    · rw [fdtEntry_shift]
+      simp only [shiftF_st]
+      split
+      · rfl
+      · rw [← shiftF_push δ I _ p now ans res hs, shiftF_st]
+        have hok : SkewOK δ ((fdtEntry I s id).2.push I p now ans) :=
+          skewOK_push δ I _ p now ans res hs hr hn hn'
+        have hupd : (if ((fdtEntry I s id).2.push I p now ans).st = FdtState.complete then
+              (shiftF δ ((fdtEntry I s id).2.push I p now ans)).updateExpired (now + δ)
+            else Except.ok (shiftF δ ((fdtEntry I s id).2.push I p now ans))) =
+            (match (if ((fdtEntry I s id).2.push I p now ans).st = FdtState.complete then
+              ((fdtEntry I s id).2.push I p now ans).updateExpired now
+              else Except.ok ((fdtEntry I s id).2.push I p now ans)) with
+             | .ok f' => .ok (shiftF δ f') | .error w => .error w) := by
+          split
+          · exact updateExpired_shiftF δ _ now hn hn' hok
+          · rfl
+        rw [hupd]
+        cases hu : (if ((fdtEntry I s id).2.push I p now ans).st = FdtState.complete then
+              ((fdtEntry I s id).2.push I p now ans).updateExpired now
+              else Except.ok ((fdtEntry I s id).2.push I p now ans)) with
+        | error w => rfl
+        | ok f' =>
+          simp only []
+          have hok' : SkewOK δ f' := by
+            split at hu
+            · exact skewOK_updateExpired δ _ f' now hok hu
+            · injection hu with hu; subst hu; exact hok
+          have hst : ({ shiftS δ (fdtEntry I s id).1 with
+                fdtReceivers := ainsert id (shiftF δ f') (shiftS δ (fdtEntry I s id).1).fdtReceivers } : State σ) =
+              shiftS δ { (fdtEntry I s id).1 with fdtReceivers := ainsert id f' (fdtEntry I s id).1.fdtReceivers } := by
+            simp only [shiftS, ainsert_map]
+          rw [hst]
+          exact fdtDispatch_shift δ I _ id f' now hn hn' hok'
 
 end Flute.Recv
